@@ -196,6 +196,8 @@ func c02Ctx(v string) map[string]interface{} {
 // of the simulated disk before any task exists.
 func c02Engine(sc *c02Sc, w *simrt.World) *twig.Engine {
 	e := twig.New()
+	installSandbox(e)
+	installGlobals(e)
 	site := map[string]string{}
 	for k, v := range c02Site {
 		site[k] = v
